@@ -22,6 +22,9 @@ def queries():
         qs.append(Q('hex_n%d' % n, 'h_hexdump', 'hexdump/hexdump_lc == base16, parse_hexdump inverts both; length %d, all byte values' % n, ['N=%d' % n], ['hexdump.cpp'], quick=n <= 3, weight=n))
     for n in range(0, 5):
         qs.append(Q('parsehex_n%d' % n, 'h_parse_hexdump', 'parse_hexdump on arbitrary input of length %d: decodes or throws runtime_error' % n, ['N=%d' % n], ['hexdump.cpp'], quick=n <= 3, weight=n))
+    for n in range(0, 6):
+        qs.append(Q('splitref_n%d' % n, 'h_split_ref', 'split(2-byte string sep, str, limit) on arbitrary input of length %d over {a,b}, every separator over {a,b}^2 (self-overlapping ones included), every limit, vs the left-to-right non-overlapping scan' % n,
+                    ['N=%d' % n], ['split.cpp'], quick=n <= 3, weight=n * 3, extra_ll2c=['--unreachable', '_M_realloc_insert']))
     for parts in (1, 2, 3):
         for seplen in (1, 2):
             qs.append(Q('split_p%d_s%d' % (parts, seplen), 'h_split', 'split(%s sep, join(parts)) == parts and limit semantics; %d parts of length 0..2 over {sep bytes, a, NUL, 0xFF}' % ('char' if seplen == 1 else '2-byte string', parts),
